@@ -215,14 +215,29 @@ impl TypeCollector {
     ) -> Vec<EventContext> {
         let type_resolver = analyzer.get_type_resolver();
 
-        events
-            .iter()
-            .map(|event| {
+        // One listener per distinct event name: an event emitted at several sites would otherwise
+        // declare the same function several times. When the sites disagree about the payload type
+        // the listener takes `unknown`
+        let mut contexts: Vec<EventContext> = Vec::new();
+        for event in events {
+            let context =
                 EventContext::new(config).from_event_info(event, visitor, &|rust_type: &str| {
                     type_resolver.borrow_mut().parse_type_structure(rust_type)
-                })
-            })
-            .collect()
+                });
+            match contexts
+                .iter_mut()
+                .find(|known| known.event_name == context.event_name)
+            {
+                Some(known) => {
+                    if known.typescript_payload_type != context.typescript_payload_type {
+                        known.payload_type = "unknown".to_string();
+                        known.typescript_payload_type = "unknown".to_string();
+                    }
+                }
+                None => contexts.push(context),
+            }
+        }
+        contexts
     }
 
     /// Create StructContext instances from StructInfo using the provided visitor
